@@ -131,7 +131,7 @@ def rule_positions(chk, fb):
     rp = chk.rule(
         "C11.b.pos",
         "sheet numbers are positions: in every loop of the package writer over the sheet list, every sheet number handed to a part writer equals 1 + the number of sheets before it - a counter that starts right and advances on every path through the loop body (a skipped raw sheet still counts), or the enumeration index + 1",
-        floor=3,
+        floor=2,
     )
     d = "writer::xlsx::make_buffer"
     b = fb.mir.get(d)
